@@ -174,6 +174,8 @@ pub fn install_panic_hook() {
             .unwrap_or_default();
         if msg.starts_with("MACHINERY") || msg.starts_with("harness") {
             default(info);
+        } else if std::env::var("PV_SHOW_PANICS").is_ok() {
+            eprintln!("panic: {} @ {}", msg, loc);
         }
         LAST_PANIC.with(|p| *p.borrow_mut() = Some(format!("{} @ {}", msg, loc)));
     }));
